@@ -22,6 +22,11 @@
 // setup-bind: the real serverSetup() with TOR_PT_SERVER_BINDADDR=obfs3-errip:0 (errip= must be
 // a loopback address).  level=<INFO|DEBUG> selects the log level (default DEBUG).
 //
+// client path socks-raw: the real clientHandler (stub factory whose outgoing connection ends
+// with EOF at once) on a connection that serves the raw SOCKS5 messages msgs=<hex>,<hex>,…
+// (message i only after i replies were written) and then EOF: requests that fail in the parser
+// and odd-but-accepted ones, whatever the harness sends.
+//
 // Nothing here runs unless the driver is active; no existing behaviour is changed.
 package main
 
@@ -43,7 +48,7 @@ import (
 
 // verifLogExtraWho maps the paths of this file to the pseudo role "extra".
 func verifLogExtraWho(who, path string) string {
-	if strings.HasPrefix(path, "proxy-") || path == "accept-errors" || strings.HasPrefix(path, "setup-") {
+	if strings.HasPrefix(path, "proxy-") || path == "accept-errors" || strings.HasPrefix(path, "setup-") || path == "socks-raw" {
 		return "extra"
 	}
 	return who
@@ -177,6 +182,24 @@ func verifLogSetup(who, path string, kv map[string]string) (func(), string) {
 func verifLogExtra(who, path string, kv map[string]string, local, peer net.Addr, localTCP *net.TCPAddr) (func(), string) {
 	if strings.HasPrefix(path, "setup-") {
 		return verifLogSetup(who, path, kv)
+	}
+	if path == "socks-raw" {
+		if who != "client" {
+			return nil, "bad-op"
+		}
+		var segs [][]byte
+		for _, h := range strings.Split(kv["msgs"], ",") {
+			b, ok := verifUnhex(h)
+			if !ok {
+				return nil, "bad-op"
+			}
+			if len(b) > 0 {
+				segs = append(segs, b)
+			}
+		}
+		f := &verifLogFactory{remote: verifNewLogConn(local, verifStrAddr{"192.0.2.1:443"}, verifEOF())}
+		conn := verifNewLogConn(local, peer, verifEOF(), segs...)
+		return func() { clientHandler(f, conn, nil) }, ""
 	}
 	if path == "accept-errors" {
 		acceptErr := func(errno syscall.Errno) error {
